@@ -70,6 +70,10 @@ func genCase(t *rapid.T) (Case, *env.Env) {
 	c.CueDur = rapid.SampledFrom([]int{0, 0, 1, 10, 100, 500, 900, 999, 1000, 1001, 1500, 1800, 2500, 5000}).Draw(t, "cuedur")
 	tl := refmodel.NewTimeline(e.Asset, e.Asset.Ref, cfg)
 	c.N, c.Regime = gen.Index(t, tl, cfg.StartS)
+	// a boundary of its own: the cue of the second in which the segment starts ends exactly at (or 1 ms around) the segment start
+	if off := (cfg.StartS*1000 + tl.Start(c.N)*1000/tl.TS()) % 1000; off > 1 && rapid.IntRange(0, 3).Draw(t, "cue-ends-at-segment-start") == 0 {
+		c.CueDur = int(off) + rapid.SampledFrom([]int{0, 0, -1, 1}).Draw(t, "cue-end-delta")
+	}
 	return c, e
 }
 
@@ -240,6 +244,9 @@ func checkCase(c Case, e *env.Env) (*hx.Violation, info) {
 		}
 		if q.begin < segStart || q.end > segEnd || q.end < q.begin {
 			return hx.V(kf("cue-outside-segment"), "%s: cue %d [%d,%d] ms, segment [%d,%d]", url, i, q.begin, q.end, segStart, segEnd), inf
+		}
+		if q.end == q.begin {
+			return hx.V("cue-empty", "%s: cue %d for UTC second %d lasts 0 ms (begin = end = %d ms): a cue that is over when the segment starts is not shown in it", url, i, q.utcS, q.begin), inf
 		}
 		if i > 0 && q.begin < cues[i-1].end {
 			return hx.V(kf("cues-overlap"), "%s: cue %d begins at %d before cue %d ends at %d", url, i, q.begin, i-1, cues[i-1].end), inf
